@@ -55,12 +55,14 @@ def vtol_cases(rng, n, violations):
         if all(v == 0 for v in c): c[rng.randrange(dim)] = Fraction(2) ** 20
         tol = Fraction(1, 10 ** rng.choice([4, 6, 8]))
         kmax = 20000
-        g = fggs.FGG("X0")
+        g = fggs.FGG("S" if block else "X0")
         if block:
+            # S -> B(v) (start symbol of arity 0, its own non-looping component, solved after B's); B(v) -> c(v) | a(v,u) B(u)
             g.new_finite_domain("D", list(range(dim)))
-            r1 = fggs.Graph(); v = r1.new_node("D"); r1.ext = [v]; r1.new_edge("c", [v], is_terminal=True); g.new_rule("X0", r1)
+            r0 = fggs.Graph(); v = r0.new_node("D"); r0.new_edge("B", [v], is_nonterminal=True); g.new_rule("S", r0)
+            r1 = fggs.Graph(); v = r1.new_node("D"); r1.ext = [v]; r1.new_edge("c", [v], is_terminal=True); g.new_rule("B", r1)
             r2 = fggs.Graph(); v = r2.new_node("D"); u = r2.new_node("D"); r2.ext = [v]
-            r2.new_edge("a", [v, u], is_terminal=True); r2.new_edge("X0", [u], is_nonterminal=True); g.new_rule("X0", r2)
+            r2.new_edge("a", [v, u], is_terminal=True); r2.new_edge("B", [u], is_nonterminal=True); g.new_rule("B", r2)
             g.new_finite_factor("c", torch.tensor([float(x) for x in c], dtype=torch.float64))
             g.new_finite_factor("a", torch.tensor([[float(x) for x in row] for row in A], dtype=torch.float64))
         else:
@@ -83,7 +85,7 @@ def vtol_cases(rng, n, violations):
                 zs = fggs.sum_products(g, method="fixed-point", semiring=fggs.RealSemiring(dtype=torch.float64), tol=float(tol), kmax=kmax)
             byname = {k.name: zs[k] for k in zs if k.is_nonterminal}
             if block:
-                obs = [Fraction(float(x)) for x in byname["X0"].to_dense().reshape(-1).tolist()]
+                obs = [Fraction(float(x)) for x in byname["B"].to_dense().reshape(-1).tolist()]
             else:
                 obs = [Fraction(float(byname["X%d" % r].to_dense())) for r in range(dim)]
             warned = any("maximum iteration" in str(w.message) for w in wl)
@@ -282,7 +284,7 @@ def run(tier, seed):
                                     case=m, observed=m["observed"], expected=m["least_fixed_point"], oracle="tol_check (C11_fixed_point_stop_bound, C11_tol_check_rejects)",
                                     corr="C11 / corr:tol", call="sum_product(method='fixed-point', tol=%s)" % m["tol"], failing_input_found=(c == 1)))
     # the meaning of tol, vector / block systems
-    vvals, vmetas = vtol_cases(rng, 9 if tier == "quick" else 120, violations)
+    vvals, vmetas = vtol_cases(rng, 6 if tier == "quick" else 120, violations)
     vcodes, a = run_model(VTOL, vvals, seed=seed, coq_sample=3, tag="c11vtol"); nk += a; total += len(vcodes)
     vshapes = {}
     for m, c in zip(vmetas, vcodes):
